@@ -171,7 +171,8 @@ impl std::fmt::Display for Relation {
             write!(f, " <")?;
             for (i, profile) in profile.iter().enumerate() {
                 if i > 0 {
-                    write!(f, ", ")?;
+                    // the terms of a restriction list are separated by whitespace
+                    write!(f, " ")?;
                 }
                 write!(f, "{}", profile)?;
             }
